@@ -132,6 +132,23 @@ template<class S,class Tg> void c05_tangent(hx::Rec<S>& R){ COMMON
   T m=a.minus(b,Ja,Jb); hx::eqm(R,"minus",m.coeffs(),(a.coeffs()-b.coeffs()).eval());
   hx::eqm(R,"minusJa",Ja,Jac(Jac::Identity())); hx::eqm(R,"minusJb",Jb,Jac(-Jac::Identity()));
 }
+// Coordinates that are exactly ZERO but carry a derivative (the classic pitfall of branching on the primal value of a
+// dual number): the element / tangent sits at an exact rational point with coordinate ZCOORD set to 0; the dual-number
+// derivative of log / exp there must still equal the analytic Jacobian.
+#ifdef ZCOORD
+template<class S,class Tg> void c05_log_zero_coord(hx::Rec<S>& R){ COMMON
+  typename G::DataType c=Tg::makec(R,0).coeffs(); c(ZCOORD)=S(0.0); G X(c); Jac Ja; T t=X.log(Ja);
+  GJ Xp=perturb<Tg,J>(X,dvec<J,D>());
+  check_vec_out<S,J>(R,"log",Xp.log().coeffs(),Ja,D);
+}
+template<class S,class Tg> void c05_exp_zero_coord(hx::Rec<S>& R){ COMMON
+  typename T::DataType c=Tg::maketc(R,0).coeffs(); c(ZTCOORD)=S(0.0); T t(c); Jac Ja; t.exp(Ja);
+  TJ tp(seedv<S,J,D>(typename T::DataType(t.coeffs())));
+  check_group_out<Tg,S,J>(R,"exp",tp.exp(),Ja,D);
+}
+ENTRY_T(c05_log_zero_coord, TAG)
+ENTRY_T(c05_exp_zero_coord, TAG)
+#endif
 ENTRY_T(c05_inverse, TAG)
 ENTRY_T(c05_log, TAG)
 ENTRY_T(c05_exp, TAG)
